@@ -195,6 +195,9 @@ def run(tier='quick'):
                         'list whose next-pointer is the sentinel 0 (not by its id)', floor=1)
     from . import extra
     extra.new_tail_linked(prog, cg, eff, chk, K9)
+    K10 = chk.rule('K10', 'the membership operations rely on the transaction guard (add / remove are several statements; a rejected one must leave no partial membership and no transaction open): the guard begins, commits - setting its flag only after COMMIT succeeded - and rolls back exactly when not committed', floor=4)
+    from . import c14 as _c14g
+    _c14g._guard_shape(prog, eff, chk, K10)
     return chk.finish('value-flow interpretation of the membership operations of both implementations '
                       '(id kinds of bound values, event order), reference graph and triggers read from the DDL '
                       'of every schema version')
